@@ -161,6 +161,57 @@ def derives_from_fields(rd, node, expr, fields, depth=0, seen=None):
                 return r
     return None
 
+
+def build_once_cache(fn, store, classnames):
+    """`Cls.attr = v` is the filling of a build-once cache: it happens only where Cls.attr (or a local copy of it) was found to be None, and v is
+    computed from nothing but argument-less helper calls on the class (wrapped in dict() / MappingProxyType() ...) - the same value whoever gets
+    there first, so the store publishes a constant rather than per-request state"""
+    from ..guards import dominating_edges, is_none_test
+    from ..dataflow import node_of_expr
+    asg = getattr(store, '_parent', None)
+    if not (isinstance(asg, ast.Assign) and len(asg.targets) == 1 and asg.targets[0] is store):
+        return False
+    g = CFG(fn)
+    rd = ReachingDefs(g)
+    nd = node_of_expr(g, store)
+    if nd is None:
+        return False
+    target = U(store)
+    param_names = {a.arg for a in fn.args.posonlyargs + fn.args.args + fn.args.kwonlyargs}
+    local_names = param_names | {x.id for x in walk_local(fn) if isinstance(x, ast.Name) and isinstance(x.ctx, (ast.Store, ast.Del))}
+    aliases = {target}
+    for x in walk_local(fn):
+        if isinstance(x, ast.Assign) and len(x.targets) == 1 and isinstance(x.targets[0], ast.Name) and U(x.value) == target:
+            aliases.add(x.targets[0].id)
+    tested = False
+    for tt, lab in dominating_edges(g, nd):
+        nt = is_none_test(tt.stmt)
+        if nt and U(nt[1]) in aliases and ((nt[0] == 'is') == (lab == 'T')):
+            tested = True
+    if not tested:
+        return False
+
+    def constant(e, node, depth=0):
+        if depth > 14:
+            return False
+        if isinstance(e, ast.Constant):
+            return True
+        if isinstance(e, ast.Name):
+            if e.id in classnames or e.id not in local_names:
+                return True                  # a class or a module-level name (an imported module, a constant): not per-request state
+            if e.id in param_names:
+                return False
+            defs = rd.reaching(node, e.id)
+            return bool(defs) and all(isinstance(v, ast.AST) and dn is not None and (constant(v, dn, depth + 1) or U(v) == target) for _, v, dn in defs)
+        if isinstance(e, ast.Attribute):
+            return constant(e.value, node, depth + 1)
+        if isinstance(e, ast.Call):
+            return constant(e.func, node, depth + 1) and all(constant(a, node, depth + 1) for a in e.args) and not e.keywords
+        if isinstance(e, (ast.Tuple, ast.List, ast.Dict, ast.Set)):
+            return all(constant(x, node, depth + 1) for x in ast.iter_child_nodes(e) if isinstance(x, ast.expr))
+        return False
+    return constant(asg.value, nd)
+
 def run(ctx):
     src = ctx.src
     m = EngineModel(src)
@@ -241,7 +292,8 @@ def run(ctx):
                     b = n.value
                     bn = dotted(b)
                     if isinstance(b, ast.Name) and b.id not in localnames and (b.id in classnames or b.id in modnames):
-                        bad.append('store to %s' % U(n))
+                        if not build_once_cache(fn, n, classnames | {'cls'}):
+                            bad.append('store to %s' % U(n))
                     elif bn in ('self.__class__',) or (isinstance(b, ast.Call) and call_name(b) == 'type'):
                         bad.append('store to class attribute %s' % U(n))
                     elif rel == SESSION and not (isinstance(b, ast.Name) and (b.id == 'self' or b.id in localnames)):
